@@ -1,12 +1,17 @@
 #!/bin/sh
-# usage: harness/seedtest.sh <patch> <check ids...>   applies patch to /repo, runs checks (quick), reverts.
+# usage: harness/seedtest.sh <patch> <check ids...>
+# applies the patch to a scratch worktree of /repo HEAD (never to /repo itself), runs the quick checks against it
+# through VERIF_REPO, removes the worktree.
 P="$1"; shift
-git -C /repo apply "$P" || { echo "patch does not apply"; exit 3; }
+W=/tmp/seedwt_$$
+git -C /repo worktree add -q --detach $W HEAD || exit 3
+( cd $W && git apply "$P" ) || { echo "patch does not apply"; git -C /repo worktree remove --force $W; exit 3; }
 for c in "$@"; do
   printf "== %s: " "$c"
-  ./check "$c" --tier quick > /tmp/seedtest_$c.out 2>&1; rc=$?
-  echo "rc=$rc  $(grep -c '^VIOLATION' /tmp/seedtest_$c.out) violations"
-  grep '^VIOLATION' /tmp/seedtest_$c.out | head -3 | cut -c1-260
-  grep '^MACHINERY' /tmp/seedtest_$c.out | head -3
+  VERIF_REPO=$W ./check "$c" --tier quick > /tmp/seedtest_$$_$c.out 2>&1; rc=$?
+  echo "rc=$rc  $(grep -c '^VIOLATION' /tmp/seedtest_$$_$c.out) violations"
+  grep '^VIOLATION' /tmp/seedtest_$$_$c.out | head -3 | cut -c1-260
+  grep '^MACHINERY' /tmp/seedtest_$$_$c.out | head -3
+  rm -f /tmp/seedtest_$$_$c.out
 done
-git -C /repo checkout -- .
+git -C /repo worktree remove --force $W
